@@ -98,6 +98,17 @@ Fixpoint val_eqb (a b : val) {struct a} : bool :=
   | _, _ => false
   end.
 
+(* msgpack.dumps(.., use_single_float=True) refuses (OverflowError) a finite double beyond the single-precision
+   range.  (Ints outside 64 bits are not msgpack-able at all and are outside the modelled value language.) *)
+Fixpoint storable (v : val) : bool :=
+  match v with
+  | VDbl _ s => negb (Z.eqb s 2139095040 || Z.eqb s 4286578688)        (* rounds to +inf / -inf *)
+  | VList l => forallb storable l
+  | VTup l => forallb storable l
+  | VMap kv => forallb (fun p => let '(k, x) := p in storable k && storable x) kv
+  | _ => true
+  end.
+
 (* python truthiness of a value, for `x or default` *)
 Definition falsy (v : val) : bool :=
   match v with
@@ -351,7 +362,17 @@ Definition decode (W : wiring) (v : val) : option obj :=
   end.
 
 (* what is stored, as the model predicts it reads back *)
-Definition roundtrip (W : wiring) (o : obj) : option obj := decode W (mnorm (encode W o)).
+Definition storable_atom (a : atom) : bool :=
+  forallb (fun s => storable (aget a s)) [AElement; AIsotope; ALabel; AAtype; AStereo; AGeom; AFCharge; AFSpin; AAttrib].
+Definition storable_bond (b : bond) : bool :=
+  forallb (fun s => storable (bget b s)) [BLabel; BBtype; BStereo; BFOrder; BAttrib].
+Definition storable_obj (o : obj) : bool :=
+  storable (o_name o) && storable (o_charge o) && storable (o_mult o) && storable (o_attrib o)
+  && forallb storable_atom (o_atoms o) && forallb storable_bond (o_bonds o).
+
+(* writing raises when a value cannot be packed; otherwise what is read back is the decoding of the packed tuple *)
+Definition roundtrip (W : wiring) (o : obj) : option obj :=
+  let e := encode W o in if storable e then decode W (mnorm e) else None.
 
 (* the object after one trip: slots the encoding does not carry fall back to the constructor defaults,
    carried values are msgpack-normalised; arrays, conformer count, atom / bond order are untouched *)
@@ -389,7 +410,8 @@ Definition reset_obj_v1 (da : atom) (db : bond) (o : obj) : obj :=
 (* ------------------------------------------------------------------ objects the public API can build *)
 (* name is a string (the name setter turns None into "unknown"), charge an int, mult a non-zero int (`mult or 1`),
    attrib a dict, every element a valid atomic number, every bond endpoint an atom of the object, and the arrays
-   rectangular: (n_atoms,3)/(n_atoms,) for a molecule, (n_conf,n_atoms,3)/(n_conf,n_atoms)/(n_conf,) for an ensemble *)
+   rectangular: (n_atoms,3)/(n_atoms,) for a molecule, (n_conf,n_atoms,3)/(n_conf,n_atoms)/(n_conf,) for an ensemble;
+   every value can be packed (`storable`: the recorded finding C01:attrib:double-beyond-single-range-refused is excluded) *)
 Definition is_str (v : val) : bool := match v with VStr _ => true | _ => false end.
 Definition is_int (v : val) : bool := match v with VInt _ => true | _ => false end.
 Definition is_nonzero_int (v : val) : bool := match v with VInt z => negb (Z.eqb z 0) | _ => false end.
@@ -408,7 +430,7 @@ Definition wf_shapeb (ens : bool) (o : obj) : bool :=
 Definition wf_objb (ens : bool) (o : obj) : bool :=
   is_str (o_name o) && is_int (o_charge o) && is_nonzero_int (o_mult o) && is_map (o_attrib o)
   && forallb wf_atomb (o_atoms o) && forallb (wf_bondb (length (o_atoms o))) (o_bonds o)
-  && wf_shapeb ens o.
+  && wf_shapeb ens o && storable_obj o.
 Definition wf_obj (ens : bool) (o : obj) : Prop := wf_objb ens o = true.
 
 (* every attribute value is something msgpack returns unchanged (no list, no double outside single precision) *)
